@@ -48,7 +48,7 @@ def ncases(tier):
     return NCASES[tier]
 
 
-def prelude(rng, case):
+def prelude(rng, case, ctx=None):
     """Commands that create state worth preserving."""
     gt = case['gt']
     sc = []
@@ -56,6 +56,37 @@ def prelude(rng, case):
     if timed and rng.random() < 0.6:
         sc += scripts.random_script(rng, case, kinds=['hold', 'hold_point'],
                                     max_cmds=2, horizon=6)
+    if timed and rng.random() < 0.3:
+        # holds (also of instances not spawned yet), all released together
+        # a little later: nothing may be held again after the restart
+        at = rng.randint(1, 4)
+        sc.append({'at': at, 'cmd': 'hold', 'args': {
+            'tasks': scripts.some_ids(rng, gt, k=rng.choice([2, 3]),
+                                      globs=False)}})
+        sc.append({'at': at + rng.randint(1, 3), 'cmd': 'release_hold_point',
+                   'args': {}})
+        if ctx is not None:
+            ctx.count('preludes_hold_then_release_all')
+    if timed and rng.random() < 0.4:
+        # manually completed outputs / manually satisfied prerequisites
+        inst = [(n, q) for n in gt['names']
+                for q in wfgen.task_points(gt, n)]
+        for _ in range(rng.choice([1, 2])):
+            n, q = rng.choice(inst)
+            args = {'tasks': [f'{q}/{n}'], 'flow': ['all']}
+            atoms = [a for ar in wfgen.arrows_at(gt, n, q)
+                     for a in wfgen.atoms(ar)
+                     if wfgen.atom_point(a, q) >= gt['initial']]
+            if atoms and rng.random() < 0.5:
+                a = rng.choice(atoms)
+                out = a[3] if a[3] != 'finished' else 'succeeded'
+                args['prerequisites'] = [
+                    f'{wfgen.atom_point(a, q)}/{a[1]}:{out}']
+            else:
+                outs = ['started', 'submitted'] + sorted(
+                    gt['tasks'][n].get('outputs') or [])
+                args['outputs'] = [rng.choice(outs)]
+            sc.append({'at': rng.randint(1, 6), 'cmd': 'set', 'args': args})
     if timed and rng.random() < 0.25:
         # a reload (same definition) after the state was created: it
         # rewrites the stored workflow parameters
@@ -135,8 +166,12 @@ def compare_snapshots(ctx, A, B, detail, S=None, auto_shutdown=False):
                           f'{tid} submit number {a["submit_num"]} at stop, '
                           f'{b["submit_num"]} after restart',
                           dict(detail, before=a, after=b))
-        pra = sorted((x[0], x[1], x[2], x[3]) for x in a['prereqs'])
-        prb = sorted((x[0], x[1], x[2], x[3]) for x in b['prereqs'])
+        # (with the recorded way each one was satisfied: naturally,
+        # forced, from the database, ...)
+        pra = sorted((x[0], x[1], x[2], x[3], x[4]) for x in a['prereqs'])
+        prb = sorted((x[0], x[1], x[2], x[3], x[4]) for x in b['prereqs'])
+        if any(x[4] and 'force' in x[4] for x in a['prereqs']):
+            ctx.count('forced_prerequisites_compared')
         if pra != prb:
             ctx.violation('C19:prerequisites-not-restored',
                           f'{tid} prerequisite satisfaction differs after '
@@ -207,7 +242,7 @@ def run_case(ctx, i, rng):
     gt = wfgen.gen_workflow(rng, feat)
     case = runner.build_case(rng, gt, rng.choice(['all-complete', 'mixed']),
                              hostile=0.3)
-    pre = prelude(rng, case)
+    pre = prelude(rng, case, ctx)
     # reference run (uninterrupted)
     base = runner.run_case(ctx, f'c{i}b', case,
                            [{'name': 'base', 'script': pre}], MONS, PID)
@@ -221,6 +256,13 @@ def run_case(ctx, i, rng):
     else:
         stops = sorted({rng.randint(1, max(1, n_iter - 1))
                         for _ in range(2)})
+    # right after a release of everything: the next removal of any task
+    # from the pool rewrites the stored hold list anyway
+    soon = [a['at'] + 1 for a in pre if a['cmd'] == 'release_hold_point'
+            and a['at'] + 1 < n_iter]
+    if soon and any(a['cmd'] == 'hold' for a in pre):
+        stops = sorted(set(stops) | {soon[-1]})
+        ctx.count('stops_right_after_release_all')
     for k in stops:
         mode = rng.choice(['clean', 'now'])
         nrestarts = 1 if rng.random() < 0.8 else 2
